@@ -590,8 +590,8 @@ def main(tier):
             if k not in ("gap_e9", "iso_e9") and not ((k.endswith("Axis") or k == "helperDeg") and "axis-ill-conditioned" in skips) and not (("oax" in k) and "scatter-isotropic" in skips):
                 chk.maximum(("float_%s_%s_e15" % (e["kind"], k)), x)
         for cl in clauses:
-            sig = dict(level="float", clause=cl, cls=e["cls"], n=e["n"])
-            chk.violation(sig, f"{e['sid']}: {cl} (measures {json.dumps(e['m'])}; seed {SEED})", dict(event=e, seed=SEED))
+            sig = dict(level="float", clause=cl, cls=e["cls"])
+            chk.violation(sig, f"{e['sid']}: {cl} ({e.get('raised') or 'measures ' + json.dumps(e['m'])}; seed {SEED})", dict(event=e, seed=SEED))
     chk.sample(dict(kind="float-texture-measures", event=next(e for e in events if e["kind"] == "tex" and e["n"] == 50)))
     chk.sample(dict(kind="float-finite-strain-measures", event=next(e for e in events if e["kind"] == "fse")))
 
